@@ -254,8 +254,10 @@ UR_MODEL = r"""
  * against this in its own group: routers and snapshots have `const` elevation frames, the two
  * resolvers assign it). kind indexes the flag table read from /repo. */
 extern size_t UR_KINDS[16];
-void op_apply_and_save(size_t kind, double *elevation, size_t n)
+void op_apply_and_save(size_t kind, double *elevation, const double *save_elevation, size_t n)
 __CPROVER_requires(kind < N_OPKINDS)
+/* C16: what an elevation snapshot saves is the array the operators are working on (the corrected copy when one exists) */
+__CPROVER_requires(save_elevation == elevation)
 __CPROVER_assigns(OPS[kind].elevation_updated : __CPROVER_object_whole(elevation))
 ;
 """
@@ -274,8 +276,10 @@ update_routes = Unit(
         R(r"elevation_ptr = &m_elevation_copy;", "elevation_ptr = m_elevation_copy;", 1),
         R(r"elevation_ptr = const_cast<data_array_type\*>\(&elevation\);", "elevation_ptr = (double *) elevation;", 1),
         R(r"for \(auto op = m_operators\.impl_begin\(\); op != m_operators\.impl_end\(\); \+\+op\)", "for (size_t op = 0; op != n_ops; ++op)", 1),
-        R(r"op->apply\(\*m_impl_ptr, \*elevation_ptr, m_thread_pool\);\s*op->save\(\*m_impl_ptr, m_graph_impl_snapshots, \*elevation_ptr, m_elevation_snapshots\);",
-          "op_apply_and_save(op_kinds[op], elevation_ptr, n);", 1, re.S),
+        R(r"op->apply\(\*m_impl_ptr, (\*?\w+), m_thread_pool\);\s*op->save\(\*m_impl_ptr, m_graph_impl_snapshots, (\*?\w+), m_elevation_snapshots\);",
+          r"op_apply_and_save(op_kinds[op], FSL_ARR(\1), FSL_ARR(\2), n);", 1, re.S),
+        V(r"FSL_ARR\(\*(\w+)\)", r"\1"),               # *ptr (a reference to the array) -> the array
+        V(r"FSL_ARR\((\w+)\)", r"((double *) \1)"),      # a reference parameter -> the array
         R(r"return \*elevation_ptr;", "return elevation_ptr;", 1),
     ],
     contract=r"""
